@@ -121,6 +121,21 @@ where
                 cx.expect_reject("msg-byte-change", v(&m4, hdr, pk), || format!("message {} ({} octets): {}", i, n, tag))?;
             }
         }
+        // the boundary to the next message moved by one octet (the concatenation of all messages stays the same)
+        if i + 1 < l {
+            if !msgs[i + 1].is_empty() {
+                let mut m5 = msgs.clone();
+                let o = m5[i + 1].remove(0);
+                m5[i].push(o);
+                cx.expect_reject("msg-boundary-moved", v(&m5, hdr, pk), || format!("first octet of message {} moved to the end of message {}", i + 1, i))?;
+            }
+            if !msgs[i].is_empty() {
+                let mut m5 = msgs.clone();
+                let o = m5[i].pop().unwrap();
+                m5[i + 1].insert(0, o);
+                cx.expect_reject("msg-boundary-moved", v(&m5, hdr, pk), || format!("last octet of message {} moved to the front of message {}", i, i + 1))?;
+            }
+        }
         // delete
         let mut m3 = msgs.clone();
         m3.remove(i);
@@ -226,6 +241,34 @@ where
         let _ = sig.verify(pk, Some(&msgs), hdr);
         debug_assert!(h2.clone().unwrap_or_default() != hb);
         cx.expect_reject("header-edit", v(&msgs, h2.as_deref(), pk), || tag.to_string())?;
+    }
+
+    // --- edits made IN PLACE: the caller's own list and header buffer are changed between two calls (same addresses,
+    // same lengths, other octets), which is what a verifier that reuses its request buffers does; anything keyed by
+    // where the data lives instead of what it is answers for the previous content
+    {
+        let mut mm = msgs.clone();
+        let mut hh = hb.clone();
+        for round in 0..3usize {
+            // honest call on these buffers first
+            if sig.verify(pk, Some(&mm), if header.is_some() { Some(&hh[..]) } else { None }).is_err() {
+                return rep.fail(ck, "honest-verify-failed", "honest statement in the reused buffers".into(), cj());
+            }
+            if let Some(i) = (0..l).map(|k| (k + round + c.mut_seed as usize) % l.max(1)).find(|&i| !mm[i].is_empty()) {
+                let pos = (round * 7 + c.mut_seed as usize) % mm[i].len();
+                mm[i][pos] ^= 0x20;
+                let acc = sig.verify(pk, Some(&mm), if header.is_some() { Some(&hh[..]) } else { None }).is_ok();
+                mm[i][pos] ^= 0x20;
+                cx.expect_reject("in-place-edit:message", acc, || format!("message {} octet {} changed in the caller's buffer after an accepted call", i, pos))?;
+            }
+            if !hh.is_empty() && header.is_some() {
+                let pos = (round * 5 + c.mut_seed as usize) % hh.len();
+                hh[pos] ^= 0x01;
+                let acc = sig.verify(pk, Some(&mm), Some(&hh[..])).is_ok();
+                hh[pos] ^= 0x01;
+                cx.expect_reject("in-place-edit:header", acc, || format!("header octet {} changed in the caller's buffer after an accepted call", pos))?;
+            }
+        }
     }
 
     // --- a component replaced by another component of the same statement -------------------------
@@ -478,6 +521,18 @@ fn fixed_cases(seed: u64) -> Vec<Case> {
             });
         }
     }
+    // vectors whose lengths are unequal but sum to L * len(m_0) (what a "all attributes have the same width" test
+    // that looks at the total only mistakes for a fixed-width vector)
+    for (k, lens) in [vec![2usize, 2, 4, 0], vec![4, 3, 5, 4, 4], vec![3, 1, 5, 3], vec![32, 31, 33, 32, 32, 30, 34, 32], vec![8, 8, 8, 0, 16, 8]].into_iter().enumerate() {
+        out.push(Case {
+            suite: if k % 2 == 0 { SuiteId::Sha256 } else { SuiteId::Shake256 },
+            key: KeySpec { fixture: false, ikm: BSpec { len: 32, class: 0, seed: splitmix(&mut st) as u32 }, key_info: OptBytes::None, key_dst: OptBytes::None },
+            header: if k % 2 == 0 { OptBytes::None } else { OptBytes::Bytes(BSpec { len: 8, class: 0, seed: 3 }) },
+            msgs: MsgVec { items: lens.into_iter().map(|len| BSpec { len, class: 0, seed: splitmix(&mut st) as u32 }).collect() },
+            mut_seed: splitmix(&mut st) as u32,
+            light: false,
+        });
+    }
     // long data: messages and headers of 300 octets up to 256 KiB, with the catalogue's first / last-octet,
     // shorter / longer edits
     for (k, (mlens, hlen)) in [
@@ -600,11 +655,11 @@ pub fn run(ctx: &Ctx, rep: &Report) -> Meta {
         }
     }
     let tier = ctx.tier;
-    run_cases(ctx, rep, "mutations", ctx.tier.pick(72, 320), 200, || strat(tier), |c| check(rep, "mutations", c));
+    run_cases(ctx, rep, "mutations", ctx.tier.pick(56, 320), 200, || strat(tier), |c| check(rep, "mutations", c));
     Meta {
-        rule: "honest (suite, key, header, msgs, signature) then the mutation catalogue enumerated per case: message byte change (random octet; first / last octet, one octet shorter / longer, leading zero octet for the first, last and one random message) / delete / prefix at every position, near-equal messages (same length, one octet apart, 7 to 1000 octets) in one vector, long data (messages and headers of 300 octets to 256 KiB), header-length-sweep: every header length 0..=1100 (quick) / 2400 for L in {1, 3, 10, 17} with tail edits, \
+        rule: "honest (suite, key, header, msgs, signature) then the mutation catalogue enumerated per case: message byte change (random octet; first / last octet, one octet shorter / longer, leading zero octet for the first, last and one random message) / boundary to the next message moved by one octet / delete / prefix at every position, vectors of unequal lengths that sum to L * len(m_0), near-equal messages (same length, one octet apart, 7 to 1000 octets) in one vector, long data (messages and headers of 300 octets to 256 KiB), header-length-sweep: every header length 0..=1100 (quick) / 2400 for L in {1, 3, 10, 17} with tail edits, \
                insert (random, empty, neighbour) at every position 0..=L, extension by 1..=3, swap and replace-by-other of every pair with different contents (all pairs for L<=12), \
-               header edits as octet strings (including one of the same length with the same FNV-1a-32 value), header := public key / signature / first / last message octets and first message := header (a component borrowed from elsewhere in the statement), a rotating third of the pairs of neighbours swapped also in the size sweep and under contention, every header and the longest message above 64 octets replaced by 27 digests of itself (SHA-2, SHA-3, SHAKE, the suite's expand_message / hash_to_scalar under the library's tags; 32 / 48 / 64 octets), refused verifications repeated a second time, pk in {other key, pk+G2, -pk}, every single-bit flip of the 80 signature octets (all 640 for L<=12), cross-suite, cross-interface in both directions (including the degenerate blind signature without commitment and without messages under every spelling of 'nothing', and the header-only plain signature through the blind verifier); \
+               header edits as octet strings (including one of the same length with the same FNV-1a-32 value), edits made in place in the caller's buffers between two calls (same addresses and lengths, other octets), header := public key / signature / first / last message octets and first message := header (a component borrowed from elsewhere in the statement), a rotating third of the pairs of neighbours swapped also in the size sweep and under contention, every header and the longest message above 64 octets replaced by 27 digests of itself (SHA-2, SHA-3, SHAKE, the suite's expand_message / hash_to_scalar under the library's tags; 32 / 48 / 64 octets), refused verifications repeated a second time, pk in {other key, pk+G2, -pk}, every single-bit flip of the 80 signature octets (all 640 for L<=12), cross-suite, cross-interface in both directions (including the degenerate blind signature without commitment and without messages under every spelling of 'nothing', and the header-only plain signature through the blind verifier); \
                the same catalogue under contention in a cold process, re-priming with the honest verification before the spelling / suite / interface families, all pairs swapped for half of the fixed shapes up to L = 33; oracle: every mutated verification (or decoding) returns Err; non-trivial = honest case with >= 5 mutation families executed; evaluations = mutated verifications"
             .into(),
         assumptions: vec![
